@@ -118,11 +118,47 @@ def run(ctx):
         # ---------------- O3
         rule = 'C09.O3-fresh-bounds'
         slots = [slot_of(a) for a in mx[2]]
-        distinct = None not in slots and slots[0] != slots[1]
+        # a compared value may also be this iteration's bound itself: the result of a call made inside the
+        # body that dominates the test (`let reg_one: f64 = infos.iter_mut().map(advance).sum();`)
+        direct = []
+        for a in mx[2]:
+            x = strip_refs(a)
+            direct.append(x[0] == 'call' and x[3][0] == f.name and x[3][1] in L.body and f.dominates(x[3][1], tb) and x[3][1] != tb)
+        if all(direct) and strip_refs(mx[2][0])[3] != strip_refs(mx[2][1])[3]:
+            ctx.ok(rule, '%s:%s' % (rule, name), 'the two compared values are the two per-player bounds of this iteration, each computed inside the body on every path before the test',
+                   f.where(tb), 'both operands are results of calls made in the body that dominate the test: %s' % [facts.show(strip_refs(a))[:40] for a in mx[2]])
+            slots = None
+        distinct = slots is not None and None not in slots and slots[0] != slots[1]
         if distinct and slots[0][0] == 'arr':
             distinct = slots[0][1] == slots[1][1] and {slots[0][2], slots[1][2]} == {0, 1}
         fresh = []
-        for sl in slots:
+        # where each compared value is *read* from its slot (a by-value copy such as `let [a, b] = regs;`
+        # freezes the value at that statement — the update must come before the copy, not just before the test)
+        mterm = f.blocks[mx[3][1]]['term'] if mx[3][0] == f.name else None
+        reads = []
+        for k in range(2):
+            pos = (tb, 10 ** 6)
+            op = mterm['args'][k] if mterm is not None and len(mterm.get('args', [])) == 2 else None
+            hops = 0
+            while op is not None and op.get('o') in ('copy', 'move') and not op['pl']['p'] and hops < 8:
+                ds = f.defs.get(op['pl']['l'], [])
+                if len(ds) != 1 or ds[0][0] != 'assign':
+                    break
+                kind, dbi, dsi, rv = ds[0]
+                if rv['r'] == 'use' and rv['a'].get('o') in ('copy', 'move'):
+                    if rv['a']['pl']['p'] and f.locals[op['pl']['l']]['ty'] == 'f64':
+                        pos = (dbi, dsi)       # the f64 is copied out of its slot here
+                        break
+                    op = rv['a']
+                    hops += 1
+                else:
+                    break
+            reads.append(pos)
+
+        def before(k, bi, si):
+            rb, ri = reads[k]
+            return f.dominates(bi, rb) and (bi != rb or si < ri)
+        for k, sl in enumerate(slots or []):
             if sl is None:
                 fresh.append(False)
                 continue
@@ -133,16 +169,18 @@ def run(ctx):
                 if bi in L.body and q.find_sub(pl, lambda s: s == base) is not None:
                     inner = f.loop_of(bi)
                     anchor = inner[0] if inner and inner[0] != L.header else bi
-                    if f.dominates(anchor, tb) and anchor != tb or (anchor == tb and bi == tb):
+                    si_ = f.blocks[bi]['stmts'].index(st) if st in f.blocks[bi]['stmts'] else 0
+                    if (f.dominates(anchor, tb) and anchor != tb or (anchor == tb and bi == tb)) and before(k, anchor if anchor != bi else bi, si_ if anchor == bi else 10 ** 6 - 1):
                         upd = True
             for bi, si, st in f.assigns():
-                if bi in L.body and not st['pl']['p'] and ('var', st['pl']['l'], f.local_name(st['pl']['l'])) == base and f.dominates(bi, tb):
+                if bi in L.body and not st['pl']['p'] and ('var', st['pl']['l'], f.local_name(st['pl']['l'])) == base and f.dominates(bi, tb) and before(k, bi, si):
                     upd = True
             for bi, t, p in f.calls():
-                if bi in L.body and not t['dest']['p'] and ('var', t['dest']['l'], f.local_name(t['dest']['l'])) == base and f.dominates(bi, tb) and bi != tb:
+                if bi in L.body and not t['dest']['p'] and ('var', t['dest']['l'], f.local_name(t['dest']['l'])) == base and f.dominates(bi, tb) and bi != tb and before(k, bi, 10 ** 6 - 1):
                     upd = True
             fresh.append(upd)
-        ctx.verdict(bool(distinct and all(fresh)), rule, '%s:%s' % (rule, name),
+        if slots is not None:
+          ctx.verdict(bool(distinct and all(fresh)), rule, '%s:%s' % (rule, name),
                     'the two compared values are the two per-player bound slots, each updated inside the body on every path before the test',
                     f.where(tb), 'slots=%s updated-before-test=%s' % ([facts.show(strip_refs(a)) for a in mx[2]], fresh),
                     breaks='the test sees last iteration\'s bound or only one player\'s bound')
